@@ -159,7 +159,9 @@ def monitor_restore(tier="quick", seed=0):
             try:
                 orig = mk(7)
                 _drive_searcher(orig, k)
-                state = copy.deepcopy(orig.get_state())
+                # the snapshot is used as handed out (in memory, not pickled): restoring must not leave the restored searcher
+                # sharing mutable state with the original, which keeps running first here
+                state = orig.get_state() if k % 2 == 0 else copy.deepcopy(orig.get_state())
                 clone = mk(99 + k).clone_from_state(state)  # a fresh instance, as after a restart
                 a = _drive_searcher(orig, 12, start=k)
                 b = _drive_searcher(clone, 12, start=k)
@@ -261,6 +263,31 @@ def _gp_twin(tier):
         b = drive(clone, k, total)
         if a != b:
             viol.append({"clause": "restored-gp-searcher-continues-identically", "snapshot_after": k, "original": repr(a)[:200], "restored": repr(b)[:200]})
+            break
+    # a finite space with duplicates allowed: the restored searcher must keep re-suggesting like the original
+    from syne_tune.config_space import choice
+
+    tiny = {"c": choice(["p", "q", "r", "s"])}
+    kw2 = dict(kw, allow_duplicates=True)
+
+    def drive2(s, lo, hi):
+        out = []
+        for i in range(lo, hi):
+            cfg = s.get_config(trial_id=str(i))
+            out.append(None if cfg is None else cfg["c"])
+            if cfg is not None:
+                s.on_trial_result(str(i), cfg, {"loss": {"p": 0.4, "q": 0.1, "r": 0.3, "s": 0.2}[cfg["c"]] + 0.01 * i}, update=True)
+        return out
+
+    for k in (0, 3) if tier == "quick" else (0, 2, 3, 5):
+        n += 1
+        orig = GPFIFOSearcher(tiny, **kw2)
+        drive2(orig, 0, k)
+        clone = GPFIFOSearcher(tiny, **kw2).clone_from_state(copy.deepcopy(orig.get_state()))
+        a = drive2(orig, k, 8)
+        b = drive2(clone, k, 8)
+        if a != b:
+            viol.append({"clause": "restored-gp-searcher-continues-identically", "case": "4 configurations, allow_duplicates", "snapshot_after": k, "original": repr(a)[:200], "restored": repr(b)[:200]})
             break
     return {"n": n, "viol": viol}
 
